@@ -7,6 +7,8 @@ na = json.load(open(os.path.join(ROOT, 'contracts', 'not_applicable.json')))
 checks = []
 for pid in sorted(props):
     P = props[pid]
+    if P.get('wip'):
+        continue
     checks.append({
         'property_id': pid,
         'quick_cmd': './check %s --tier quick' % pid,
@@ -18,7 +20,7 @@ for pid in sorted(props):
         'level_note': P['level_note'],
         'technique': P.get('technique', 'contract-based deductive verification (Verus) of functions cut from /repo on every run'),
     })
-claimed = set(props)
+claimed = set(p for p in props if not props[p].get('wip'))
 M = {
     'version': 1,
     'setup_cmd': 'true',
